@@ -71,10 +71,10 @@ def judge(c):
     a = c.answer
     if a is None or "bad" in a:
         return None
-    for i, (ex, de) in enumerate(zip(a["exec"], a["denote"])):
+    for i, (ex, de) in enumerate(zip(cgroup.exec_outcomes(c), a["denote"])):
         fe, fd = cgroup.fault_class(ex), cgroup.fault_class(de)
         if fe == fd == "ok":
-            if cgroup._norm_num(ex["num"]) != cgroup._norm_num(de["num"]):
+            if not cgroup.same_outcome(ex, de)[0]:
                 return {"what": f"on event {i} a guarded query writes different rows than it denotes (stale or default value, or a row silently dropped)", "observed": {"event": i, "generated_code": ex, "query_denotes": de, "body": r["query"]}}
             continue
         if fe != fd:
@@ -95,5 +95,5 @@ def after(ctx, c):
             ctx.count("event:query-" + cgroup.fault_class(de))
 
 
-_P = CompilerProp(ID, gen, judge, 180, 2000, after=after)
+_P = CompilerProp(ID, gen, judge, 180, 2000, after=after, use_gxx=True)
 run, search, replay = _P.run, _P.search, _P.replay
